@@ -277,7 +277,13 @@ func (m Mode) ixMulC(a string, c int64) string {
 	if m.BV {
 		return app("bvmul", a, m.IxLit(c))
 	}
-	return app("*", a, fmt.Sprint(c))
+	if isNumLit(a) {
+		n, _ := new(big.Int).SetString(a, 10)
+		return n.Mul(n, big.NewInt(c)).String()
+	}
+	// eo(c, i) = c*i, kept as an uninterpreted application so that quantifiers over the elements of
+	// a slice of multi-cell values have a usable trigger
+	return app("eo", fmt.Sprint(c), a)
 }
 
 // signed comparisons on IX (lengths and indices are Go ints)
